@@ -391,7 +391,12 @@ def edit_constant(parameterized):
     # other instances and the class stay protected meanwhile and no copy made
     # from an unlocked class-level Parameter is left unlocked afterwards.
     updated = []
+    existing = parameterized.param.objects(instance='existing')
     for pname in list(parameterized.param.objects(instance=False)):
+        # (only constants get an instance-level copy here: an object keeps
+        # following its class for all the other Parameters)
+        if not existing[pname].constant:
+            continue
         pobj = parameterized.param[pname]
         if pobj.constant:
             pobj.constant = False
